@@ -67,6 +67,10 @@ OpOk ==
               /\ V("PLACES", \A p \in PlacesOf(Ev.id) : Cardinality({k \in 1..Len(IdsAt(p)) : IdsAt(p)[k] = Ev.id}) = 1,
                    <<"value", Ev.id, "stored twice at one place">>)
          ELSE Same /\ Breach(<<"insert range outside the domain", Ev.a, Ev.b, len>>)
+    [] Ev.op = "bulk" ->         \* scale runs: n values with one range and expiration, inserted by one observed call
+         IF InDomain(Ev.a) /\ InDomain(Ev.b) /\ Ev.a <= Ev.b /\ Ev.n >= 0
+         THEN vals' = vals \cup R!BulkVals(Ev.id, Ev.n, B(Ev.a), B(Ev.b), Ev.e) /\ now' = now
+         ELSE Same /\ Breach(<<"bulk insert outside the domain", Ev.a, Ev.b, len>>)
     [] Ev.op = "query" ->
          IF InDomain(Ev.a) /\ InDomain(Ev.b) /\ Ev.a <= Ev.b /\ R!CanQuery(Ev.t)
          THEN LET c == B(Ev.a) d == B(Ev.b) IN
